@@ -33,7 +33,9 @@ CLAIM = dict(
           "trailing line ends — give the same, prescribed tree, with the line table and indentation type of each (C03_layout_invariance, "
           "C03_layout_tree_lines_indent); PROGRAM SECTIONS and the other statement kinds: import lines, the input line, statements and 拦截 "
           "sections, with 令 a、b = e, the three 遍历 forms, 抛出, 结束循环 / 继续循环 and 如何 definitions whose exec blocks nest to any depth, "
-          "compile to the prescribed program (C03_sections_every_program, C03_exec_block_tokens); more fuel never changes an answer (C03_fuel_monotone). C03_complete: every tree the executable model of the "
+          "compile to the prescribed program (C03_sections_every_program, C03_exec_block_tokens); so do type definitions (定义 with property "
+          "lines, methods and getters), constructors (如何新建), method-call statements 以 X（M：a、b）、（N）得到 R and the member forms 其 P "
+          "(C03_types_every_program); more fuel never changes an answer (C03_fuel_monotone). C03_complete: every tree the executable model of the "
           "front end (pkg/syntax lexer driver + pkg/syntax/zh parser: token buffer with stmtCompleteFlag, tryConsume, "
           "meetStmtLineBreak, blockIndent, all Parse* productions, with the repairs fixes/C03-1..4, C05-1, C05-3, C13-1) returns is "
           "complete - every construct has all parts the grammar requires - for ALL sources and fuel values, by induction over "
@@ -45,7 +47,7 @@ CLAIM = dict(
           "corruptions and truncations must be rejected or yield a complete tree, never hang or panic; and the model's "
           "outcome (tree + line table, or error code + cursor) must equal the implementation's on these inputs."),
     note=TB + ("proved: completeness of every returned tree (all inputs); the round trip compile(print e) = e for operator expressions under "
-               "every spacing. NOT proved, covered by the correspondence run only: the round trip for type definitions (定义), constructors (如何新建), the 令： block form, method calls (以…（…）), 其-rooted chains, "
+               "every spacing. NOT proved, covered by the correspondence run only: the round trip for the 令： block form, method calls and 其 P as leaves of arbitrary expressions, "
                "dictionary literals, program sections, and the layout dimensions not in the proved family (comments, leading blank lines, extra spaces inside lines for statements), comma / bracket-line-break / comment invariance as theorems. "
                "The token recognisers are the C04 model (vendored as model/LexerTok.v), string literals the C13 model."),
     technique="Coq proof (induction over fuel and productions) + model/implementation correspondence by vm_compute + differential generation",
